@@ -35,7 +35,8 @@ def DefOk (st : St) : Stmt → Prop
         (∀ x, QN.sym x ∈ cI.bound ↔ x ∈ paramStrs po ar va ko kw ∨ x ∈ ownBindsSs body ∨ x ∈ ownDeclsSs false body ∨ x ∈ ownLeaksSs body) ∧
         (∀ x, QN.sym x ∈ cI.globals ↔ x ∈ ownDeclsSs true body) ∧
         (∀ x, QN.sym x ∈ cI.nonlocals ↔ x ∈ ownDeclsSs false body) ∧
-        (∀ x, QN.sym x ∈ ca.paramNames ↔ x ∈ paramStrs po ar va ko kw)
+        (∀ x, QN.sym x ∈ ca.paramNames ↔ x ∈ paramStrs po ar va ko kw) ∧
+        (∃ fns, ∀ q, q ∈ cI.read ↔ q ∈ (effSs fns body).read)
   | _ => True
 
 theorem DefOk.mono {a b : St} {e : Eff} {d : Stmt} (h : Adds a b e) (r : DefOk a d) : DefOk b d := by
@@ -73,7 +74,8 @@ theorem defOk_self (i : Nat) (name : String) (ai : Nat) (po ar va ko kd kw df : 
   obtain ⟨cI, ca, rest, hann, hca, hcI, hpar, -⟩ := functionDef_recorded i name ai po ar va ko kd kw df body decos returns st fns p hf
   simp only [FragS, Bool.and_eq_true, Bool.not_eq_true'] at hf
   have hM := effSs_sets body hf.2 (.fn i name :: fns)
-  refine ⟨cI, ca, by rw [hann]; exact List.mem_cons_self, by rw [hann]; exact List.mem_cons_of_mem _ hca, ?_, ?_, ?_, ?_⟩
+  refine ⟨cI, ca, by rw [hann]; exact List.mem_cons_self, by rw [hann]; exact List.mem_cons_of_mem _ hca, ?_, ?_, ?_, ?_,
+    ⟨.fn i name :: fns, fun q => by rw [hcI.read]; simp [Eff.exported]⟩⟩
   · intro x
     simp only [hcI.bound, Eff.append_bound, Eff.exported_false_bound', List.mem_append, hM.bound, mem_paramNames_iff]
     try grind
